@@ -16,13 +16,21 @@ var Funcs = []gojq.CompilerOption{
 	gojq.WithFunction("cf_self", 0, 0, func(x any, _ []any) any { return x }),
 	gojq.WithFunction("cf_wrap", 1, 1, func(x any, xs []any) any { return []any{x, xs} }),
 	gojq.WithIterFunction("cf_each", 1, 3, func(_ any, xs []any) gojq.Iter { return gojq.NewIter(xs...) }),
+	// iterates over the input array itself (NewIter adopts the slice it is given)
+	gojq.WithIterFunction("cf_elems", 0, 0, func(x any, _ []any) gojq.Iter {
+		if a, ok := x.([]any); ok {
+			return gojq.NewIter(a...)
+		}
+		return gojq.NewIter[any]()
+	}),
 	gojq.WithIterFunction("cf_twice", 1, 1, func(_ any, xs []any) gojq.Iter { return gojq.NewIter[any](xs, xs) }),
 }
 
 const Defs = `def cf_args($a): [$a]; def cf_args($a; $b): [$a, $b]; def cf_args($a; $b; $c): [$a, $b, $c]; def cf_pair($a; $b): [$a, $b]; def cf_self: .; def cf_wrap($a): [., [$a]];
-def cf_each($a): $a; def cf_each($a; $b): $a, $b; def cf_each($a; $b; $c): $a, $b, $c; def cf_twice($a): [$a], [$a]; `
+def cf_each($a): $a; def cf_each($a; $b): $a, $b; def cf_each($a; $b; $c): $a, $b, $c; def cf_twice($a): [$a], [$a]; def cf_elems: if type == "array" then .[] else empty end; `
 
 var Programs = []string{
+	"[cf_elems], [cf_elems]", "(.a? | [cf_elems]), .a?", "[.[]? | [cf_elems]]", "($v | [cf_elems]), $v", "[cf_elems] | length, .", "first(cf_elems), [cf_elems]", "[limit(2; cf_elems)], .", "[.[]?] | ([cf_elems] | length), .",
 	".[]? | cf_pair(.; \"x\")", "cf_pair(.a?; .b?)", "[.[]? | cf_args(.)]", "[.[]? | cf_args(.; 1; [.])]", "[cf_pair(1; 2), cf_pair(3; 4)]", "[range(3) | cf_pair(.; . + 1)]", "[.[]? | cf_wrap(.)]", "[cf_each(.[]?)]", "[.[]? | cf_each(.; [.])]",
 	"[.[]? | cf_twice(.)]", "def f: cf_pair(.; 0); [.[]? | f]", "reduce .[]? as $x ([]; . + [cf_args($x)])", "[foreach .[]? as $x (0; . + 1; cf_pair($x; .))]", "[.[]? | cf_self] | .[0]? |= 1", "[limit(2; repeat(cf_args(.)))]",
 	"[cf_pair(.[]?; $v)]", "cf_args($v) | .[0][0]? = 9", "[.[]? | cf_pair(.; .) | .[0]? = 5]", "[.[]? | [cf_each(.; .)]]", "[paths | cf_args(.)]", "(cf_args(.) | .[0]), .", "[cf_args(.[]?), cf_args(.[]?)]", "[.[]? as $x | cf_pair($x; [$x])] | map(.[1])",
